@@ -280,35 +280,44 @@ def _get_path(grid, obj, paths):
         return NOT_FOUND
 
 
-def _generate_filter_in_python(node, def_filter):
+def _generate_filter_in_python(node, def_filter, consts=None):
+    # Only tag names and operators go into the generated source.  Literal
+    # values are data: they are collected in `consts` and the source refers
+    # to them by position, their repr() is never compiled.
+    if consts is None:
+        consts = []
     if isinstance(node, FilterPath):
-        def_filter.append("_get_path(_grid, _entity, %s)" % node.path)
+        def_filter.append("_get_path(_grid, _entity, %r)" % [str(p) for p in node.path])
     elif isinstance(node, FilterBinary):
         def_filter.append("(")
-        def_filter.extend(_generate_filter_in_python(node.left, []))
+        def_filter.extend(_generate_filter_in_python(node.left, [], consts))
         def_filter.append(" " + node.op + " ")
-        def_filter.extend(_generate_filter_in_python(node.right, []))
+        def_filter.extend(_generate_filter_in_python(node.right, [], consts))
         def_filter.append(")")
     elif isinstance(node, FilterUnary):
         if node.op == "has":
             def_filter.append('(id(')
-            def_filter.extend(_generate_filter_in_python(node.right, []))
+            def_filter.extend(_generate_filter_in_python(node.right, [], consts))
             def_filter.append(') !=  id(NOT_FOUND))')
         elif node.op == "not":
             def_filter.append('(id(')
-            def_filter.extend(_generate_filter_in_python(node.right, []))
+            def_filter.extend(_generate_filter_in_python(node.right, [], consts))
             def_filter.append(") == id(NOT_FOUND))")
         else:  # pragma: no cover
             assert 0
     else:
-        def_filter.append(repr(node))
+        consts.append(node)
+        def_filter.append("_consts[%d]" % (len(consts) - 1))
     return def_filter
 
 
 class _FnWrapper():
-    def __init__(self, fun_name, function_template):
+    def __init__(self, fun_name, function_template, consts=()):
         self.fun_name = fun_name
-        exec(function_template, globals(), globals())
+        # The literal values are bound to the function as a default argument
+        env = {'_filter_consts': tuple(consts)}
+        exec(function_template, globals(), env)
+        globals()[fun_name] = env[fun_name]
 
     def __del__(self):  # pragma: no cover
         del globals()[self.fun_name]  # Remove generated function if the LRU ask that
@@ -319,12 +328,13 @@ class _FnWrapper():
 @lru_cache(maxsize=FILTER_CACHE_LRU_SIZE)
 def _filter_function(filter):
     global _id_function
-    def_filter = _generate_filter_in_python(parse_filter(filter)._head, [])
+    consts = []
+    def_filter = _generate_filter_in_python(parse_filter(filter)._head, [], consts)
     fun_name = "_gen_hsfilter_" + str(_id_function)
-    function_template = "def %s(_grid, _entity):\n  return " % fun_name + "".join(def_filter)
+    function_template = "def %s(_grid, _entity, _consts=_filter_consts):\n  return " % fun_name + "".join(def_filter)
     print("\nGenerate:\n# " + filter + "\n" + function_template)  # FIXME: debug
     _id_function += 1
-    return _FnWrapper(fun_name, function_template)
+    return _FnWrapper(fun_name, function_template, consts)
 
 
 def filter_function(filter):
